@@ -28,6 +28,8 @@ def checkLine (line : String) : String × String × Verdict :=
         | "pvec" => checkPVec args r
         | "poly" => checkPoly op args r
         | "up" => checkUP op args r
+        | "div" => checkDiv op args r
+        | "udiv" => checkUDiv op args r
         | _ => Verdict.skip s!"unknown family {fam}"
       (idx, fam, v)
     | _ => ("?", "?", .skip "short line")
